@@ -55,6 +55,7 @@ impl Statement {
                 result
             }
             Substitution { var, rhe, .. } => {
+                env.set_assigned(var);
                 result = result || rhe.propagate_degrees(env);
                 if env.is_local(var) {
                     if let Some(range) = rhe.degree() {
